@@ -579,6 +579,43 @@ Fixpoint dict_of_pairs (l : list val) (acc : list (string * val)) : option (list
   | _ => None
   end.
 
+(** x[:] = v ("fill[:]"): every element of the array x is overwritten - by the number v (cast to the
+    array's type), or by the elements of an array v of the same shape (broadcasting a smaller array, and a
+    float stored into an int array, which numpy truncates, are outside the fragment) *)
+Fixpoint fill_leaves (cast : bool) (v : val) (x : val) : val :=
+  match x with
+  | VA l => VA (map (fill_leaves cast v) l)
+  | _ => match v with VZ z => if cast then VQ (inject_Z z) else VZ z | _ => v end
+  end.
+Definition fill_all (x v : val) : option val :=
+  match x with
+  | VA l =>
+      match v with
+      | VZ _ | VQ _ => if negb (has_Q x) && has_Q v then None
+                       else if rect x then Some (fill_leaves (has_Q x) v x) else None
+      | VA _ => if negb (has_Q x) && has_Q v then None
+                else if rect x && rect v && shape_eqb (shape_of x) (shape_of v) then to_array (has_Q x) v else None
+      | _ => None
+      end
+  | _ => None
+  end.
+
+(** column op row: an (n, 1) array against a 1-D array of m numbers broadcasts to the (n, m) array of
+    x_i op y_j (numpy's broadcasting rule for trailing dimensions 1 and m) *)
+Definition binop_outer (arith_ : val -> val -> option val) (a b : val) : option val :=
+  match a, b with
+  | VA l, VA r =>
+      if forallb is_scalar r
+      then option_map VA (map_opt (fun row => match row with
+                                               | VA [x] => if is_scalar x then option_map VA (map_opt (fun y => arith_ x y) r) else None
+                                               | _ => None end) l)
+      else None
+  | _, _ => None
+  end.
+
+(** itertools.product(a, b): the pairs (x, y), x in a (outer), y in b (inner) *)
+Definition product2 (a b : list val) : list val := flat_map (fun x => map (fun y => VT [x; y]) b) a.
+
 (** builtins of the fragment, on exact numbers *)
 Definition call (f : string) (args : list val) : option (option val) :=   (* None: stuck; Some None: raises *)
   let is := String.eqb f in
@@ -744,6 +781,11 @@ Definition call (f : string) (args : list val) : option (option val) :=   (* Non
           if (n =? -1)%Z || (n =? Z.of_nat (List.length fl))%Z then Some (Some (VA fl))
           else if (0 <=? n)%Z then Some None else None
         else None
+    | [VA l; VT [VZ n; VZ 1]] =>         (* a.reshape((n, 1)) of a 1-D array: a column *)
+        if forallb is_scalar l then
+          if (n =? Z.of_nat (List.length l))%Z then Some (Some (VA (map (fun x => VA [x]) l)))
+          else if (0 <=? n)%Z then Some None else None
+        else None
     | _ => None
     end
   else if is "in" then                  (* x in seq: the serialiser renders `a in e` for a non-literal e as a call of "in" *)
@@ -843,6 +885,15 @@ Definition call (f : string) (args : list val) : option (option val) :=   (* Non
     | [VA l; VS d] => if all_scalar l && String.eqb d "float64" then Some (Some (VA (map (fun _ => VQ 1) l))) else None
     | _ => None
     end
+  else if is "meth:copy" then         (* a.copy() of an array: the same values (a new object) *)
+    match args with [VA l] => Some (Some (VA l)) | _ => None end
+  else if is "fill[:]" then           (* x[:] = v, see [fill_all] *)
+    match args with [x; v] => match fill_all x v with Some r => Some (Some r) | None => None end | _ => None end
+  else if is "itertools.product" then (* two sequences; rendered as a list: only iterated *)
+    match args with
+    | [a; b] => match seq_of a, seq_of b with Some la, Some lb => Some (Some (VL (product2 la lb))) | _, _ => None end
+    | _ => None
+    end
   else None.
 
 (** binding the target(s) of a comprehension with a tuple target (the same as [bind_pattern] below) *)
@@ -893,7 +944,11 @@ Fixpoint eval (env : list (string * val)) (e : expr) {struct e} : option (option
   | EConst v => ret v
   | EBin op a b =>
       match eval env a, eval env b with
-      | Some (Some x), Some (Some y) => match binop_val op x y with Some v => ret v | None => None end
+      | Some (Some x), Some (Some y) =>
+          match binop_val op x y with
+          | Some v => ret v
+          | None => match binop_outer (arith op) x y with Some v => ret v | None => None end   (* (n, 1) op (m,) *)
+          end
       | Some None, _ => Some None
       | Some (Some _), Some None => Some None
       | _, _ => None
